@@ -628,7 +628,61 @@ def position(ctx, R):
     R.check(r is not None and r.equals(want), "VPSC.POSITION", g.qual, where(g), "slack == right.scale*pos(right) - gap - left.scale*pos(left)", "Constraint.slack() is %s" % (r.key() if r is not None else "?"))
 
 
-FEAS = [refetch, exit_rule, argmin, merge_tight, split_tight, requeue, cycle, blocklist, index_rule, position]
+def _copy_of(v, base):
+    return key(v) in ("%s[:]" % base, "list(%s)" % base, "%s.copy()" % base, "copy.copy(%s)" % base, "[*%s]" % base) or (isinstance(v, MapV) and key(v.it) == base and key(v.body) == "elem(%s)" % base)
+
+
+@rule("VPSC.ALLCS")
+def allcs(ctx, R):
+    """Solver.__init__ takes over every constraint and every variable it is given, unfiltered."""
+    from . import qp
+    P = ctx.P
+    f = P.func("vpsc.Solver.__init__")
+    R.saw(f)
+    ev = new_eval(P)
+    st = ev.new_state(f)
+    s = Opaque("self", cls=P.cls("vpsc.Solver"), kind="obj")
+    VS = Opaque("VS", cls=P.cls("vpsc.Variable"), kind="seq")
+    CS = Opaque("CS", cls=P.cls("vpsc.Constraint"), kind="seq")
+    ev.call_closure(Closure(f, None, selfv=s), [VS, CS], {}, st)
+    cs = st.heap.get(("self", "cs"))
+    vs = st.heap.get(("self", "vs"))
+    ina = st.heap.get(("self", "inactive"))
+    R.check(cs is not None and (key(cs) == "CS" or _copy_of(cs, "CS")), "VPSC.ALLCS", "Solver.__init__|self.cs", where(f), "the solver keeps all constraints it is given", "Solver.__init__ stores %s as its constraint list, not all the constraints it was given: dropped constraints are never enforced" % (show(cs) if cs is not None else "nothing"))
+    R.check(vs is not None and (key(vs) == "VS" or _copy_of(vs, "VS")), "VPSC.ALLCS", "Solver.__init__|self.vs", where(f), "the solver keeps all variables it is given", "Solver.__init__ stores %s as its variable list" % (show(vs) if vs is not None else "nothing"))
+    R.check(ina is not None and _copy_of(ina, "CS"), "VPSC.ALLCS", "Solver.__init__|self.inactive", where(f), "the inactive list starts as a private copy of all constraints", "Solver.__init__ initialises the inactive list to %s, not a private copy of all constraints" % (show(ina) if ina is not None else "nothing"))
+    wired = {"cOut": False, "cIn": False}
+    reset = {"cOut": False, "cIn": False}
+    for e in st.events:
+        if e[0] != "loop":
+            continue
+        itk = key(e[1])
+        el = key(e[2])
+        if itk in ("CS", "CS[:]") or _copy_of(e[1], "CS"):
+            for b in qp._uncond_events(e[3]):
+                if b[0] == "seq-append" and len(b[2]) == 1 and key(b[2][0]) == el:
+                    if b[1] == el + ".left.cOut":
+                        wired["cOut"] = True
+                    if b[1] == el + ".right.cIn":
+                        wired["cIn"] = True
+        if itk == "VS" or _copy_of(e[1], "VS"):
+            for b in qp._uncond_events(e[3]):
+                if b[0] == "setattr" and b[1] == el and b[2] in reset and isinstance(b[3], Seq) and not b[3].items:
+                    reset[b[2]] = True
+    R.check(all(wired.values()), "VPSC.ALLCS", "Solver.__init__|adjacency", where(f), "every constraint is registered with both of its variables", "Solver.__init__ does not register every constraint in left.cOut and right.cIn (%s): the block traversals never see the missing constraints" % wired)
+    R.check(all(reset.values()), "VPSC.ALLCS", "Solver.__init__|adjacency reset", where(f), "every variable starts with empty constraint lists", "Solver.__init__ does not reset cIn/cOut of every variable (%s): constraints of an earlier solver stay attached" % reset)
+    g = P.func("vpsc.Solver.setStartingPositions") if "vpsc.Solver.setStartingPositions" in P.funcs else None
+    if g is not None:
+        ev2 = new_eval(P, inline_filter=lambda fn: fn.qual == g.qual)
+        st2 = ev2.new_state(g)
+        st2.heap[("self", "cs")] = CS
+        st2.heap[("self", "vs")] = VS
+        ev2.call_closure(Closure(g, None, selfv=s), [Opaque("PS", kind="seq")], {}, st2)
+        ina2 = st2.heap.get(("self", "inactive"))
+        R.check(ina2 is not None and _copy_of(ina2, "CS"), "VPSC.ALLCS", "Solver.setStartingPositions|self.inactive", where(g), "restart: inactive list is a private copy of all constraints", "setStartingPositions sets the inactive list to %s" % (show(ina2) if ina2 is not None else "nothing"))
+
+
+FEAS = [refetch, exit_rule, argmin, merge_tight, split_tight, requeue, cycle, blocklist, index_rule, position, allcs]
 
 
 # ---------------------------------------------------------------------------
@@ -784,6 +838,19 @@ def lmtol(ctx, R):
     # examines every block
     lps = [l for l in cfg.loops if isinstance(l["stmt"], ast.For) and ntext(l["stmt"].iter) == "self._list"]
     R.check(bool(lps) and any(_attr_call(k, "findMinLM") for k in calls_in(lps[0]["stmt"])), "VPSC.LMTOL", "Blocks.split|every block examined", where(f), "findMinLM() of every block", "Blocks.split does not examine the minimum multiplier of every block")
+    if lps:
+        lp = lps[0]["stmt"]
+        head = lps[0]["head"]
+        fm = [n for n in cfg.stmt_nodes() if _has_call(n, lambda k: _attr_call(k, "findMinLM")) and any(n.ast is x or (n.ast is not None and any(n.ast is y for y in ast.walk(x))) for x in lp.body)]
+        first = cfg.of_stmt.get(lp.body[0])
+        skip = bool(fm) and first is not None and first not in fm and cfg.exists_path(first, head, avoid=set(fm))
+        harmless = False
+        if skip and isinstance(lp.body[0], ast.If):
+            # a block with a single variable has no active constraint: skipping it skips nothing
+            tx = ntext(lp.body[0].test).replace(" ", "")
+            bn = ntext(lp.target)
+            harmless = tx in ("len(%s.vars)<2" % bn, "len(%s.vars)<=1" % bn, "len(%s.vars)==1" % bn, "2>len(%s.vars)" % bn) and all(isinstance(x, ast.Continue) for x in lp.body[0].body) and not lp.body[0].orelse
+        R.check(not skip or harmless, "VPSC.LMTOL", "Blocks.split|no block skipped", where(f, lp), "the multiplier search runs for every block on every path through the loop body", "Blocks.split can pass over a block without computing its minimum multiplier (a path through the loop body avoids findMinLM()): a block that should be re-opened stays merged and the result is not optimal")
     upd = [n for n in cfg.stmt_nodes() if _has_call(n, lambda k: _attr_call(k, "updateBlockPositions"))]
     R.check(bool(upd) and all(cfg.dominates(upd[0], l["head"]) for l in lps), "VPSC.LMTOL", "Blocks.split|positions refreshed", where(f), "block positions refreshed before multipliers are computed", "block positions are not refreshed (updateBlockPositions) before the multipliers are computed: desired positions changed since the last pass are ignored")
 
